@@ -779,7 +779,20 @@ pub fn expected_stdout_lines(results: &[Res], exact: bool) -> Result<Vec<Expect>
                 if d.has_numerator {
                     line.push(' ');
                 }
-                line.push_str(if d.is_one { &d.unit_singular } else { &d.unit_plural });
+                if d.unit_parts.is_empty() {
+                    line.push_str(if d.is_one { &d.unit_singular } else { &d.unit_plural });
+                } else {
+                    // numerator parts, then '/' and the denominator parts; the unit name is pluralised
+                    // only when it stands alone in the numerator and the value is not one
+                    let num: Vec<&UnitPart> = d.unit_parts.iter().filter(|p| p.numerator).collect();
+                    let den: Vec<&UnitPart> = d.unit_parts.iter().filter(|p| !p.numerator).collect();
+                    let plural = num.len() == 1 && !d.is_one;
+                    line.push_str(&num.iter().map(|p| if plural { p.plural.as_str() } else { p.singular.as_str() }).collect::<Vec<_>>().join("⋅"));
+                    if !den.is_empty() {
+                        line.push('/');
+                        line.push_str(&den.iter().map(|p| p.singular.as_str()).collect::<Vec<_>>().join("⋅"));
+                    }
+                }
                 out.push(Expect::Line(line));
             }
             Res::Err { msg, .. } => out.push(Expect::Diagnostic(msg.clone())),
